@@ -15,7 +15,7 @@ from __future__ import annotations
 import copy
 import multiprocessing
 import os
-from concurrent.futures import ProcessPoolExecutor
+from concurrent.futures import ProcessPoolExecutor, ThreadPoolExecutor
 
 from .. import c14_real, c14_replay, tlc
 from ..core import Report
@@ -40,6 +40,11 @@ ASSUMPTIONS = [
     "a Progress violation only when every unfinished probe thread is found inside a lock acquisition of the "
     "library, otherwise a machinery failure",
     "the pty responder answers requests in arrival order (FIFO terminal)",
+    "initialisation (TtyInit): the active terminal is the tty behind stdout, stdin, stderr (in that order), else "
+    "/dev/tty; whenever one is found Process.start and Process.run must be the library's wrappers; probed by real "
+    "imports in fresh sessions over all 16 combinations (one pty each)",
+    "atomicity of a synchronized entry point: between its first and its last terminal access the terminal lock is "
+    "never fully released (checked by letting a synchronized read_tty() of another thread run at every full release)",
     "the set of entry points that must be synchronized is TtySync!Synchronized (documented terminal-touching "
     "functions, docstrings marked 'Synchronized with lock_tty', the UrwidImageScreen overrides); a member "
     "'touches the terminal' when it reaches termios/read/write/select on the library's tty descriptor, or, for "
@@ -166,7 +171,14 @@ def validate_sync(rep: Report, result: dict, selfcheck: bool = True):
         if not m["decided"]:
             raise tlc.MachineryError(f"synchronized-set probe of {name}: the caller neither touched the terminal, "
                                      f"nor returned, nor waited for the lock within the time limit")
-        traces.append({"member": name, "ev": [{"k": e["k"], "t": e["t"]} for e in m["ev"]]})
+        traces.append({"member": name, "kind": "serialized", "ev": [{"k": e["k"], "t": e["t"]} for e in m["ev"]]})
+        names.append(name)
+        a = m.get("atomic")
+        if a is None:
+            raise tlc.MachineryError(f"synchronized-set probe of {name}: no atomicity run")
+        if a["errors"] or not a["finished"]:
+            raise tlc.MachineryError(f"synchronized-set atomicity probe of {name}: {a['errors']} finished={a['finished']}")
+        traces.append({"member": name, "kind": "atomic", "ev": [{"k": e["k"], "t": e["t"]} for e in a["ev"]]})
         names.append(name)
     if not traces:
         raise tlc.MachineryError("synchronized-set probe produced no trace")
@@ -198,15 +210,58 @@ def validate_sync(rep: Report, result: dict, selfcheck: bool = True):
             raise tlc.MachineryError(f"synchronized-set probe of {name}: {verdict}; events={t['ev']}")
         if verdict != "ok":
             clause = verdict.split(":")[0]
-            what = next((e.get("what") for e in result["members"][name]["ev"] if e["k"] == "touch"), "")
+            evs = result["members"][name]["atomic"]["ev"] if t["kind"] == "atomic" else result["members"][name]["ev"]
+            what = (evs[v["at"] - 1].get("what") if 0 < v["at"] <= len(evs) else "") or next(
+                (e.get("what") for e in evs if e["k"] == "touch"), "")
             rep.violation(
                 f"synchronized-set:{name}:{clause}",
                 f"{name} is specified as synchronized on the terminal lock (specs/TtySync.tla): {verdict} "
-                f"(event {v['at']}; first terminal access: {what}); events: "
-                f"{[(e['k'], e['t']) for e in t['ev']][:10]}",
+                f"(event {v['at']}; terminal access: {what}); events: "
+                f"{compress(t['ev'])}",
                 {"kind": "sync", "member": name},
             )
-    rep.extra["synchronized_set"] = {"members": len(names), "seen_waiting_for_the_lock": waited}
+    rep.extra["synchronized_set"] = {"members": len(set(names)), "traces": len(names), "seen_waiting_for_the_lock": waited}
+
+
+def validate_init(rep: Report, obs: list[dict]):
+    """Initialisation environments (specs/TtyInit.tla): hand-over wrappers installed whenever a tty was found."""
+    traces = [{k: o[k] for k in ("out", "inp", "err", "ctty", "found", "start", "run")} for o in obs]
+    bad = dict(traces[-1], start=False)  # corrupted observation: must be rejected
+    verdicts, st, tr = tlc.validate_traces("Trace_TtyInit", "Trace_TtyInit.cfg", traces + [bad], batch=100,
+                                           parallel=1, workers=2, name="c14init", timeout=300)
+    rep.states += st
+    rep.transitions += tr
+    if verdicts[0]["missing"]:
+        raise tlc.MachineryError(f"{verdicts[0]['missing']} initialisation environments of TtyInit were not probed")
+    if verdicts[-2]["verdict"] == "ok" and not verdicts[-1]["verdict"].startswith("HandOver"):
+        raise tlc.MachineryError(f"Trace_TtyInit accepted a corrupted observation: {verdicts[-1]}")
+    sources = {}
+    for t, v in zip(traces, verdicts):
+        rep.traces_validated += 1
+        rep.evaluations += 1
+        name = f"out={int(t['out'])},in={int(t['inp'])},err={int(t['err'])},ctty={int(t['ctty'])}"
+        rep.distinct.add(("init", name))
+        sources[v["source"]] = sources.get(v["source"], 0) + 1
+        if v["verdict"] != "ok":
+            clause = v["verdict"].split(":")[0]
+            rep.violation(
+                f"init:{v['source']}:{clause}",
+                f"importing term_image with [{name}] (active terminal per the documented search: {v['source']}): "
+                f"{v['verdict']}; observed tty found={t['found']}, Process.start wrapped={t['start']}, Process.run wrapped={t['run']}",
+                {"kind": "init"},
+            )
+    rep.extra["init_environments"] = sources
+
+
+def compress(ev):
+    out = []
+    for e in ev:
+        k = (e["k"], e["t"])
+        if out and out[-1][0] == k:
+            out[-1][1] += 1
+        else:
+            out.append([k, 1])
+    return [f"{k[0]}(t{k[1]})" + (f"x{n}" if n > 1 else "") for k, n in out]
 
 
 def report_replay(rep: Report, out: dict, cover: dict):
@@ -266,6 +321,8 @@ def _main(rep: Report, replay: dict | None) -> None:
         elif sc.get("kind") == "sync":
             p, od = c14_real.launch_sync(os.path.join(rep.extra.get("repo", "/repo"), "src"), [sc["member"]])
             validate_sync(rep, c14_real.collect_sync(p, od), selfcheck=False)
+        elif sc.get("kind") == "init":
+            validate_init(rep, c14_real.run_init_envs(os.path.join(rep.extra.get("repo", "/repo"), "src")))
         elif sc.get("kind") == "real":
             # re-run the recorded configuration against the code under test (a real-time sample; the
             # recorded trace is kept in the file for reference)
@@ -283,6 +340,8 @@ def _main(rep: Report, replay: dict | None) -> None:
     jobs = real_jobs(rep)
     first = [c14_real.launch(j) for j in jobs[:6]]
     sync_p = c14_real.launch_sync(os.path.join(rep.extra.get("repo", "/repo"), "src"))
+    tail = ThreadPoolExecutor(max_workers=3)
+    init_f = tail.submit(c14_real.run_init_envs, os.path.join(rep.extra.get("repo", "/repo"), "src"))
 
     cover: dict = {}
     with _pool() as ex:
@@ -346,5 +405,18 @@ def _main(rep: Report, replay: dict | None) -> None:
         "all interleavings of the model configurations named in extra.replay (state graphs fully explored by "
         "TLC and every edge replayed); real runs and the simulation sub-graph are samples"
     )
-    validate_real(rep, traces)
-    validate_sync(rep, c14_real.collect_sync(*sync_p))
+    # the three trace validations are independent TLC runs: run them side by side
+    futs = [tail.submit(validate_sync, rep, c14_real.collect_sync(*sync_p)),
+            tail.submit(validate_init, rep, init_f.result()),
+            tail.submit(validate_real, rep, traces)]
+    errors = []
+    for f in futs:
+        try:
+            f.result()
+        except Exception as e:  # report violations of the others first, then fail as machinery
+            errors.append(e)
+    tail.shutdown()
+    if errors and not rep.violations:
+        raise errors[0]
+    for e in errors:
+        rep.notes.append(f"machinery problem next to violations: {e}")
